@@ -15,7 +15,10 @@ import (
 	"path/filepath"
 	"sort"
 	"strings"
+	"go/constant"
+	"regexp"
 	"text/template"
+	"text/template/parse"
 
 	"golang.org/x/tools/go/packages"
 	"golang.org/x/tools/go/ssa"
@@ -289,16 +292,28 @@ type witness struct {
 	why    string
 	trans  []wTrans
 	finals []wFinal
+	// extra: a field of the template data that the witness does not model, set to true at one level of the data
+	// ("edge-first", "edge-last", "trans", "final", "dfa", "top"); see unmodelledFields
+	extraField string
+	extraLevel string
 }
 
 func (w *witness) data(pkg string) map[string]any {
 	var tr []map[string]any
 	for _, t := range w.trans {
 		var es []map[string]any
-		for _, e := range t.Trans {
-			es = append(es, map[string]any{"Symbols": e.Symbols, "Next": e.Next})
+		for i, e := range t.Trans {
+			m := map[string]any{"Symbols": e.Symbols, "Next": e.Next}
+			if (w.extraLevel == "edge-first" && i == 0) || (w.extraLevel == "edge-last" && i == len(t.Trans)-1) {
+				m[w.extraField] = true
+			}
+			es = append(es, m)
 		}
-		tr = append(tr, map[string]any{"From": t.From, "Trans": es})
+		m := map[string]any{"From": t.From, "Trans": es}
+		if w.extraLevel == "trans" {
+			m[w.extraField] = true
+		}
+		tr = append(tr, m)
 	}
 	var fs []map[string]any
 	for _, f := range w.finals {
@@ -306,12 +321,252 @@ func (w *witness) data(pkg string) map[string]any {
 		if st == nil {
 			st = []int{}
 		}
-		fs = append(fs, map[string]any{"Terminal": f.Terminal, "States": st})
+		m := map[string]any{"Terminal": f.Terminal, "States": st}
+		if w.extraLevel == "final" {
+			m[w.extraField] = true
+		}
+		fs = append(fs, m)
 	}
-	return map[string]any{"Package": pkg, "Debug": false, "DFA": map[string]any{"Transitions": tr, "FinalStates": fs}}
+	dfa := map[string]any{"Transitions": tr, "FinalStates": fs}
+	if w.extraLevel == "dfa" {
+		dfa[w.extraField] = true
+	}
+	top := map[string]any{"Package": pkg, "Debug": false, "DFA": dfa}
+	if w.extraLevel == "top" {
+		top[w.extraField] = true
+	}
+	return top
+}
+
+// modelledKeys are the fields of the template data that the witnesses provide.
+var modelledKeys = map[string]bool{"Package": true, "Debug": true, "DFA": true, "Transitions": true, "FinalStates": true, "From": true, "Trans": true,
+	"Symbols": true, "Next": true, "Terminal": true, "States": true}
+
+// extraWitnesses are added by unmodelledFields: variants of the plain witnesses in which a boolean field that the templates read,
+// that the generator can set, and that the witnesses do not model is true.
+var extraWitnesses []*witness
+
+// unmodelledFields (R8.7): every field a template reads must be one the witnesses model, or the analysis must cover it another way.
+// A boolean field of the generator's data structs that some generator code can set to something else than false is covered by
+// variants of the witnesses with the field set (per state: on the first edge only, on the last edge only; per list: on every element):
+// the emitted functions must equal the automaton whatever the field is, because nothing here models the code that sets it. A field
+// that is never set stays false, which is what the witnesses give it. Any other unmodelled field is undecided.
+func unmodelledFields(c *Ctx, rule string, ts *tmplSet) {
+	extraWitnesses = nil
+	used := map[string]string{}
+	var names []string
+	for n := range ts.files {
+		names = append(names, n)
+	}
+	sort.Strings(names)
+	fnames := map[string]any{"formatInts": 0, "formatRunes": 0}
+	for name := range ts.funcs {
+		fnames[name] = 0
+	}
+	for _, n := range names {
+		trees, err := parse.Parse(n, ts.files[n], "", "", fnames, builtinFuncs())
+		if err != nil {
+			// unknown function names: fall back to a scan of the field tokens
+			for _, m := range fieldTokenRe.FindAllStringSubmatch(ts.files[n], -1) {
+				if _, ok := used[m[1]]; !ok {
+					used[m[1]] = n
+				}
+			}
+			continue
+		}
+		for _, t := range trees {
+			walkTmpl(t.Root, func(f string) {
+				if _, ok := used[f]; !ok {
+					used[f] = n
+				}
+			})
+		}
+	}
+	var unknown []string
+	for f := range used {
+		if !modelledKeys[f] {
+			unknown = append(unknown, f)
+		}
+	}
+	sort.Strings(unknown)
+	c.Extra("template_fields_read", len(used))
+	if len(unknown) == 0 {
+		c.Pass(rule, "every field the templates read is modelled by the witnesses", token.NoPos, fmt.Sprintf("%d fields", len(used)))
+		return
+	}
+	info := ts.gp.TypesInfo
+	for _, f := range unknown {
+		key := "template field ." + f + " (read by " + used[f] + ") is covered by the witnesses"
+		// the struct(s) of the generator package with that field
+		level, isBool, found := "", false, false
+		for _, name := range ts.gp.Types.Scope().Names() {
+			tn, ok := ts.gp.Types.Scope().Lookup(name).(*types.TypeName)
+			if !ok {
+				continue
+			}
+			st, ok := tn.Type().Underlying().(*types.Struct)
+			if !ok {
+				continue
+			}
+			has := map[string]bool{}
+			var ft types.Type
+			for i := 0; i < st.NumFields(); i++ {
+				has[st.Field(i).Name()] = true
+				if st.Field(i).Name() == f {
+					ft = st.Field(i).Type()
+				}
+			}
+			if ft == nil {
+				continue
+			}
+			lv := ""
+			switch {
+			case has["Symbols"] && has["Next"]:
+				lv = "edge"
+			case has["From"] && has["Trans"]:
+				lv = "trans"
+			case has["Terminal"] && has["States"]:
+				lv = "final"
+			case has["Transitions"] && has["FinalStates"]:
+				lv = "dfa"
+			case has["Package"]:
+				lv = "top"
+			}
+			if lv == "" {
+				continue
+			}
+			found = true
+			level = lv
+			if b, ok := ft.Underlying().(*types.Basic); ok && b.Kind() == types.Bool {
+				isBool = true
+			}
+		}
+		if !found || !isBool {
+			c.Undecided(rule, key, token.NoPos, "the witnesses do not provide this field and it is not a boolean field of one of the generator's data structs: what the templates emit for it is not decided")
+			continue
+		}
+		// can the generator set it?
+		var setAt token.Pos
+		AllFuncDecls(ts.gp, func(fd *ast.FuncDecl) {
+			if fd.Body == nil {
+				return
+			}
+			ast.Inspect(fd.Body, func(n ast.Node) bool {
+				switch x := n.(type) {
+				case *ast.AssignStmt:
+					for i, l := range x.Lhs {
+						if sel, ok := ast.Unparen(l).(*ast.SelectorExpr); ok && sel.Sel.Name == f && i < len(x.Rhs) {
+							if tv, ok := info.Types[x.Rhs[i]]; ok && tv.Value != nil && tv.Value.Kind() == constant.Bool && !constant.BoolVal(tv.Value) {
+								continue
+							}
+							setAt = x.Pos()
+						}
+					}
+				case *ast.KeyValueExpr:
+					if id, ok := x.Key.(*ast.Ident); ok && id.Name == f {
+						if tv, ok := info.Types[x.Value]; ok && tv.Value != nil && tv.Value.Kind() == constant.Bool && !constant.BoolVal(tv.Value) {
+							return true
+						}
+						setAt = x.Pos()
+					}
+				}
+				return true
+			})
+		})
+		if setAt == token.NoPos {
+			c.Pass(rule, key, token.NoPos, "no generator code sets the field: it is false, as in the witnesses")
+			continue
+		}
+		levels := []string{level}
+		if level == "edge" {
+			levels = []string{"edge-first", "edge-last"}
+		}
+		for _, base := range witnesses0() {
+			if base.name != "simple" && base.name != "runes" {
+				continue
+			}
+			for _, lv := range levels {
+				w := *base
+				w.name = base.name + "_" + strings.ToLower(f) + "_" + strings.ReplaceAll(lv, "-", "")
+				w.why = base.why + "; with the unmodelled field ." + f + " set (" + lv + "), as the generator can set it at " + c.rel(setAt)
+				w.extraField, w.extraLevel = f, lv
+				extraWitnesses = append(extraWitnesses, &w)
+			}
+		}
+		c.Pass(rule, key, setAt, fmt.Sprintf("covered by %d additional witnesses in which the field is set", 2*len(levels)))
+	}
+}
+
+var fieldTokenRe = regexp.MustCompile(`\.([A-Z][A-Za-z0-9_]*)`)
+
+func builtinFuncs() map[string]any {
+	m := map[string]any{}
+	for _, n := range []string{"and", "call", "html", "index", "slice", "js", "len", "not", "or", "print", "printf", "println", "urlquery", "eq", "ge", "gt", "le", "lt", "ne"} {
+		m[n] = 0
+	}
+	return m
+}
+
+func walkTmpl(n parse.Node, f func(string)) {
+	if n == nil {
+		return
+	}
+	switch x := n.(type) {
+	case *parse.ListNode:
+		if x == nil {
+			return
+		}
+		for _, c := range x.Nodes {
+			walkTmpl(c, f)
+		}
+	case *parse.ActionNode:
+		walkTmpl(x.Pipe, f)
+	case *parse.PipeNode:
+		if x == nil {
+			return
+		}
+		for _, c := range x.Cmds {
+			walkTmpl(c, f)
+		}
+	case *parse.CommandNode:
+		for _, a := range x.Args {
+			walkTmpl(a, f)
+		}
+	case *parse.FieldNode:
+		for _, id := range x.Ident {
+			f(id)
+		}
+	case *parse.ChainNode:
+		walkTmpl(x.Node, f)
+		for _, id := range x.Field {
+			f(id)
+		}
+	case *parse.VariableNode:
+		for _, id := range x.Ident[1:] {
+			f(id)
+		}
+	case *parse.IfNode:
+		walkTmpl(x.Pipe, f)
+		walkTmpl(x.List, f)
+		walkTmpl(x.ElseList, f)
+	case *parse.RangeNode:
+		walkTmpl(x.Pipe, f)
+		walkTmpl(x.List, f)
+		walkTmpl(x.ElseList, f)
+	case *parse.WithNode:
+		walkTmpl(x.Pipe, f)
+		walkTmpl(x.List, f)
+		walkTmpl(x.ElseList, f)
+	case *parse.TemplateNode:
+		walkTmpl(x.Pipe, f)
+	}
 }
 
 func witnesses() []*witness {
+	return append(witnesses0(), extraWitnesses...)
+}
+
+func witnesses0() []*witness {
 	simple := &witness{name: "simple", why: "plain letters, identifier-like terminal names",
 		trans: []wTrans{{0, []wEdge{{[]rune{'a', 'b'}, 1}, {[]rune{'0'}, 2}}}, {1, []wEdge{{[]rune{'a'}, 1}}}},
 		finals: []wFinal{{"ID", []int{1}}, {"NUM", []int{2, 3}}}}
